@@ -83,6 +83,8 @@ structure Input where
   deprecatedCtor : Bool        -- the verifier was built with the deprecated NewWithOptions constructor: must not matter
   identityPlugin : Bool        -- the signature names a verification plugin that declares ONLY the
                                -- trusted-identity capability: revocation stays with the native validator
+  bothSupplied : Bool          -- the caller supplied the deprecated client as well (iface = validator): the
+                               -- context-aware validator is the one consulted; must not matter otherwise
   variant : String             -- what else is true of the signature (expired signature under a level that logs
                                -- expiry, expired chain, empty-subject signing certificate): must not matter
   deriving Repr, FromJson, ToJson
